@@ -192,6 +192,8 @@ def run_case(c):
                             from properties.c05 import classify
 
                             mech = classify(model, ext, "<start>")   # the extension itself may be unparseable for a known C05 mechanism
+                            if mech is None and engines_disagree(inp[:consumed]):
+                                mech = "partial-match-engine-classifies-characters-differently"
                             violations.append({"what": f"input {inp!r} fed as {frags!r}: can_continue() is False after {inp[:consumed]!r} although "
                                                        f"{inputs.to_input(ext, binary)!r} (in the reference language) extends it", "mech": mech})
                             ok = False
